@@ -93,8 +93,15 @@ def no_registration_on_failure(ctx):
         guard = [a for a in ancestors(c) if isinstance(a, ast.If) and src(a.test) in (arg, f'{arg} is not None')]
         ctx.check(bool(guard), f'{f.qualname}:registration guarded', c, f'add_module only `if {arg}`',
                   'a module is registered although its creation failed (None / partially constructed object)', f)
-        ctors = [i for x in calls_in(f.node) if isinstance(x.func, ast.Name) and x.func.id == 'cls' for i in cfg.node_of(x)]
-        ctx.check(bool(ctors) and all(cfg.dominates(ctors, i) for i in cfg.node_of(c)), f'{f.qualname}:registration after construction', c,
+        ctors = [i for x in calls_in(f.node) if (isinstance(x.func, ast.Name) and x.func.id == 'cls') or
+                 (isinstance(x.func, ast.Attribute) and dotted(x.func.value) == 'self' and any(isinstance(a_, ast.Name) and a_.id == 'cls' for a_ in x.args))
+                 for i in cfg.node_of(x)]      # (the constructor call itself, or the helper the class is handed to)
+        if not ctors:
+            # the whole creation may be a helper: what is registered is what that helper handed back
+            ctors = [i for x in body_walk(f.node) if isinstance(x, ast.Assign) and any(src(t) == arg for t in x.targets) and isinstance(x.value, ast.Call)
+                     and isinstance(x.value.func, ast.Attribute) and dotted(x.value.func.value) == 'self' and x.value.func.attr.startswith('_') for i in cfg.node_of(x)]
+        ctx.check(bool(ctors) and (all(cfg.dominates(ctors, i) for i in cfg.node_of(c)) or
+                                   not (set(cfg.node_of(c)) & reach_with_flags(cfg, [cfg.entry], avoid=ctors))), f'{f.qualname}:registration after construction', c,
                   'the constructor call dominates add_module', 'the module is registered before / without being constructed', f)
     for n in body_walk(f.node):
         if isinstance(n, ast.ExceptHandler):
